@@ -420,7 +420,9 @@ func runC08(c *fw.Ctx) {
 		clocks := Clocks(ld.Archs, false, []string{"mid"})
 		now := clocks[1]
 		rmax, r0 := ld.Archs[len(ld.Archs)-1].Ret(), ld.Archs[0].Ret()
-		wins := [][2]int64{{0, 0}, {now - 1, now}, {now - 3, now - 1}, {now - r0 - 2, now - r0}, {now - rmax - 4, now - rmax - 1}}
+		wins := [][2]int64{{0, 0}, {now - 1, now}, {now - 3, now - 1}, {now - r0 - 2, now - r0}, {now - rmax - 4, now - rmax - 1},
+			// wholly older than the finest archive's retention, still covered by a coarser one
+			{now - r0 - 3, now - r0 - 1}}
 		srcs := allCodes(ns, 3)
 		dsts2 := allCodes(ns, 2)
 		dsts3 := allCodes(ns, 3)
